@@ -242,6 +242,8 @@ type (
 	NamedF64   float64
 	NamedF32   float32
 	NamedU8    uint8
+	NamedI64   int64
+	NamedU64   uint64
 	NamedBool  bool
 	NamedSlice []int
 	NamedMap   map[string]int
